@@ -187,6 +187,8 @@ class Evaluator:
     def ev(self, e):
         if isinstance(e, ast.Constant) and isinstance(e.value, (int, float)) and not isinstance(e.value, bool):
             return sp.nsimplify(e.value) if isinstance(e.value, float) else sp.Integer(e.value)
+        if isinstance(e, ast.Constant) and e.value is None:
+            return None
         if isinstance(e, ast.Name):
             if e.id in self.env:
                 return self.env[e.id]
@@ -229,6 +231,8 @@ class Evaluator:
             return transpose(self.ev(e.value))
         if isinstance(e, ast.Attribute) and core.src(e) in self.env:
             return self.env[core.src(e)]
+        if isinstance(e, ast.Attribute) and e.attr == "ndim":
+            return sp.Integer(len(shape(self.ev(e.value))))
         if isinstance(e, ast.Attribute) and e.attr == "shape":
             return [sp.Integer(n_) for n_ in shape(self.ev(e.value))]
         if isinstance(e, ast.Attribute) and e.attr in ("real", "imag"):
@@ -400,6 +404,25 @@ class Evaluator:
                 axes = list(range(nd))
                 axes[vals[0]], axes[vals[1]] = axes[vals[1]], axes[vals[0]]
                 return permute(base, axes)
+            if f in ("np.zeros", "np.ones") and e.args:
+                dims = self.ev(e.args[0])
+                dims = dims if isinstance(dims, list) else [dims]
+                if not all(getattr(d_, "is_Integer", False) for d_ in dims):
+                    raise AnalysisError(f"{self.where}: '{core.norm(core.src(e), 50)}' with a symbolic extent")
+                fill = sp.Integer(0 if f == "np.zeros" else 1)
+
+                def mk_(ds):
+                    return fill if not ds else [mk_(ds[1:]) for _ in range(int(ds[0]))]
+
+                return mk_(dims)
+            if f in ("np.zeros_like", "np.ones_like") and e.args:
+                fill = sp.Integer(0 if f == "np.zeros_like" else 1)
+                return _map2(lambda x, _: fill, self.ev(e.args[0]), sp.Integer(0))
+            if f == "enumerate" and len(e.args) == 1:
+                v = self.ev(e.args[0])
+                if not isinstance(v, list):
+                    raise AnalysisError(f"{self.where}: enumerate over a scalar")
+                return [[sp.Integer(i), x] for i, x in enumerate(v)]
             if f in ("np.arange", "range") and len(e.args) == 1 and not isinstance(e.args[0], ast.Constant):
                 n_ = self.ev(e.args[0])
                 if not getattr(n_, "is_Integer", False):
@@ -519,6 +542,15 @@ def run_block(evl: Evaluator, stmts) -> None:
         if isinstance(st, ast.AugAssign) and isinstance(st.target, (ast.Name, ast.Attribute)):
             evl.env[core.src(st.target)] = evl.ev(ast.BinOp(left=st.target, op=st.op, right=st.value))
             continue
+        if isinstance(st, ast.Assign) and len(st.targets) == 1 and isinstance(st.targets[0], (ast.Tuple, ast.List)) and all(isinstance(x, (ast.Name, ast.Attribute)) for x in st.targets[0].elts):
+            v = evl.ev(st.value)
+            if not isinstance(v, list) or len(v) != len(st.targets[0].elts):
+                raise AnalysisError(f"{evl.where}: cannot unpack '{core.norm(core.src(st), 60)}' (value of shape {shape(v)})")
+            for x, r_ in zip(st.targets[0].elts, v):
+                evl.env[core.src(x)] = r_
+            continue
+        if isinstance(st, ast.Raise):
+            raise AnalysisError(f"{evl.where}: the evaluated path raises ('{core.norm(core.src(st), 50)}')")
         if isinstance(st, ast.Expr) and isinstance(st.value, ast.Call) and isinstance(st.value.func, ast.Attribute) and st.value.func.attr == "append" and len(st.value.args) == 1:
             tgt = core.src(st.value.func.value)
             if not isinstance(evl.env.get(tgt), list):
@@ -527,16 +559,16 @@ def run_block(evl: Evaluator, stmts) -> None:
             continue
         if isinstance(st, (ast.Assign, ast.AugAssign)) and isinstance(st.targets[0] if isinstance(st, ast.Assign) else st.target, ast.Subscript):
             tg = st.targets[0] if isinstance(st, ast.Assign) else st.target
-            if len(getattr(st, "targets", [0])) == 1 and isinstance(tg.value, ast.Name) and isinstance(evl.env.get(tg.value.id), list):
+            if len(getattr(st, "targets", [0])) == 1 and isinstance(tg.value, (ast.Name, ast.Attribute)) and isinstance(evl.env.get(core.src(tg.value)), list):
                 ix = tg.slice
                 k = ix.value if isinstance(ix, ast.Constant) and isinstance(ix.value, int) else (int(evl.env[ix.id]) if isinstance(ix, ast.Name) and isinstance(evl.env.get(ix.id), (int, sp.Integer)) else None)
                 if k is not None:
                     val = evl.ev(st.value) if isinstance(st, ast.Assign) else evl.ev(ast.BinOp(left=tg, op=st.op, right=st.value))
-                    arr = list(evl.env[tg.value.id])
+                    arr = list(evl.env[core.src(tg.value)])
                     if shape(val) != shape(arr[k]):
                         val = _map2(lambda x, _: x, val, arr[k]) if not shape(val) else val
                     arr[k] = val
-                    evl.env[tg.value.id] = arr
+                    evl.env[core.src(tg.value)] = arr
                     continue
             raise AnalysisError(f"{evl.where}: store '{core.norm(core.src(st), 60)}' is outside the array fragment")
         if isinstance(st, ast.If) and isinstance(st.test, ast.Compare) and len(st.test.ops) == 1 and isinstance(st.test.ops[0], (ast.Is, ast.IsNot)) and isinstance(st.test.comparators[0], ast.Constant) and st.test.comparators[0].value is None:
